@@ -27,7 +27,8 @@ Definition show_variant (v : mvariant) : list string * Z :=
 Definition show_group (g : mgroup) : string * (list string * list Z) :=
   let vs := map show_variant (iter_variants g) in
   (render (g_key g),
-   ([render (g_key g); if g_ignore g then "ign" else "req"] ++ flat_map (fun x => "#" :: fst x) vs, map snd vs)).
+   (* index files are never size pre-checked (check_size) nor optional (ignore_missing) *)
+   ([render (g_key g); if g_ignore g then "ign" else "req"; "nochk"; "required"] ++ flat_map (fun x => "#" :: fst x) vs, map snd vs)).
 Fixpoint ins_g (x : string * (list string * list Z)) l :=
   match l with [] => [x] | y :: r => if String.ltb (fst x) (fst y) then x :: l else y :: ins_g x r end.
 Definition mke n s t h := {| le_name := n; le_size := s; le_type := t; le_hash := h |}.
@@ -220,7 +221,8 @@ def obs_select(out, rdir):
     rows = []
     for f, vs, sizes in out:
         key = group_key(f, rdir)
-        rows.append((key, [key, "ign" if f.ignore_errors else "req"] + vs, sizes))
+        rows.append((key, [key, "ign" if f.ignore_errors else "req", "chk" if f.check_size else "nochk",
+                           "optional" if f.ignore_missing else "required"] + vs, sizes))
     rows.sort(key=lambda r: r[0])
     return [(r[1], r[2]) for r in rows]
 
